@@ -374,6 +374,8 @@ func vcL2(out *zzverif.Out, cfg *vcCfg, caseLine string, r *vcResult) {
 		out.L2(kind, caseLine, fmt.Sprintf("group=%d nowrap=%v ", gi, nw)+fmt.Sprintf(format, a...))
 	}
 	placedAll := false
+	placedEvery := false
+	maxPlaced := 0
 	for gi, e := range r.ests {
 		gpus := r.groups[gi]
 		// per-GPU layer counts as the runner will see them
@@ -439,16 +441,30 @@ func vcL2(out *zzverif.Out, cfg *vcCfg, caseLine string, r *vcResult) {
 			fail("cpu-layers", gi, "layers=%d vram=%d", e.Layers, e.VRAMSize)
 		}
 		if e.Layers > 0 {
+			// "all requested layers": every layer of the model, or the user's limit if that is lower
 			if cfg.NumGPU < 0 && e.Layers == blocks+1 {
 				placedAll = true
 			}
-			if cfg.NumGPU >= 0 && e.Layers == cfg.NumGPU {
+			if cfg.NumGPU >= 0 && e.Layers >= min(cfg.NumGPU, blocks+1) {
 				placedAll = true
 			}
+			if e.Layers == blocks+1 {
+				placedEvery = true
+			}
+			maxPlaced = max(maxPlaced, e.Layers)
 		}
 	}
 	if r.fit && !placedAll {
 		out.L2("fit-not-placed", caseLine, fmt.Sprintf("fit=true but no library group placed all requested layers (num_gpu=%d blocks=%d)", cfg.NumGPU, blocks))
+	}
+	// the clause as the property states it: a complete fit only if ALL of the model's layers were placed
+	// (enabled by C16's own check; a user limit below the layer count is finding N1)
+	if os.Getenv("VERIF_C16_LITERAL") != "" && r.fit && !placedEvery {
+		class := "other"
+		if cfg.NumGPU > 0 && cfg.NumGPU < blocks+1 {
+			class = "user-limit"
+		}
+		out.L2("fit-partial-offload", caseLine, fmt.Sprintf("class=%s fit=true although at most %d of the model's %d layers were placed (num_gpu=%d)", class, maxPlaced, blocks+1, cfg.NumGPU))
 	}
 }
 
@@ -776,6 +792,50 @@ func (v *vcRunner) emit(cfg *vcCfg, l *vcLoaded) vcResult {
 			}
 			if e.TensorSplit != "" && used < len(r.groups[gi]) {
 				out.Count("some_gpu_without_layers")
+			}
+			// branch counters of the model (admission, gpu-zero overhead, output layer, graph switch, cap, drop-out)
+			out.Count("br_admit_accept")
+			zero := false
+			for _, sz := range e.GPUSizes {
+				if sz == 0 {
+					zero = true
+				}
+			}
+			if zero {
+				out.Count("br_admit_reject")
+				if e.GPUSizes[0] == 0 && e.projectorWeights+e.projectorGraph > 0 {
+					out.Count("br_gzo_on_later_gpu")
+				}
+			}
+			capped := cfg.NumGPU >= 0 && e.Layers >= cfg.NumGPU
+			switch {
+			case e.memoryLayerOutput == 0 || (capped && e.Layers < r.d.blocks+1):
+				out.Count("br_output_not_considered")
+			case e.Layers == r.d.blocks+1:
+				out.Count("br_output_placed")
+			case e.Layers == r.d.blocks:
+				out.Count("br_output_not_placed")
+			}
+			if capped && e.Layers < r.d.blocks+1 {
+				out.Count("br_cap_hit")
+			}
+			if e.graphFullOffload != e.graphPartialOffload {
+				if e.Graph == e.graphFullOffload {
+					out.Count("br_graph_full")
+				} else {
+					out.Count("br_graph_partial")
+				}
+			}
+			if e.TensorSplit != "" {
+				lo, hi := 1<<30, 0
+				for _, p := range strings.Split(e.TensorSplit, ",") {
+					if n, err := strconv.Atoi(p); err == nil && n > 0 {
+						lo, hi = min(lo, n), max(hi, n)
+					}
+				}
+				if hi-lo >= 2 {
+					out.Count("br_gpu_dropped_midway")
+				}
 			}
 		}
 		if !vcNoWrap(e, r.d, r.groups[gi], cfg.Overhead) {
